@@ -72,8 +72,13 @@ TRUSTED TABLES (every entry is an assumption relating the Python objects to coq/
              stored / forwarded.
   SKIP       the certificate plumbing of _initialize_inner_protocol (three statements, matched by their exact text): the
              peer's certificate is a constant of the connection in the models (as in py2coq_server.SKIP_CERT).
+  DISPATCH   data_received, _handle_handshake_timeout (the call_later callback) and connection_lost are the three
+             callbacks TlsGlue.loop_step dispatches to; the event loop's side itself (no data after close(), a cancelled
+             handle does not run, connection_lost once, nothing after it) is hand-written there.
 NOT TRANSLATED: TLSTransportWrapper.get_extra_info, _SSLObjectWrapper (certificate plumbing, no counterpart in
-Model/TlsPump.v)."""
+Model/TlsPump.v).  The two classes must have exactly the methods of METHODS besides these (a new method, e.g. another
+asyncio callback, is refused until it is listed), TLSServerProtocol's only base class must be asyncio.Protocol, and no
+untranslated method may assign a translated attribute or call one of the objects."""
 import ast, sys, os, copy
 sys.path.insert(0, os.path.dirname(os.path.abspath(__file__)))
 from py2coq import Untranslatable, bad, find_function, SRC
@@ -116,6 +121,7 @@ SKIP = [
     "if peer_cert:\n    inner_transport.peer_certificate = x509_to_cryptography(peer_cert)\n    logger.debug('client_certificate_received', client_ip=self._peer_name[0] if self._peer_name else 'unknown')",
 ]
 ERASED_TYPES = ("erased", "wrapper", "loop", "exc")
+NOT_TRANSLATED = [(WRAPPER, "__init__"), (WRAPPER, "get_extra_info")]      # __init__ is checked structurally (analyse)
 
 H0 = "(fun (s__ : pst) (a__ : list pact) (x__ : exc) => (s__, a__, Some x__))"
 
@@ -481,6 +487,9 @@ def log_only_params(fn):
 def analyse(tree):
     ctx = {"sigs": {}, "log_attrs": {}, "ctor_attrs": {}}
     nodes = {}
+    for n in tree.body:
+        if isinstance(n, ast.ClassDef) and n.name not in (PUMP, WRAPPER, "_SSLObjectWrapper"): raise Untranslatable("unknown class %s" % n.name)
+        if isinstance(n, (ast.FunctionDef, ast.AsyncFunctionDef)): raise Untranslatable("module-level function %s" % n.name)
     for cname in (PUMP, WRAPPER):
         cls = class_node(tree, cname)
         for b in cls.bases:
@@ -508,9 +517,11 @@ def analyse(tree):
             if cname == WRAPPER and m == "__init__": continue
             ctx["sigs"][(c, m)] = (cname,) + signature(cls, meths[m], log_only_params(meths[m]))
             nodes[(c, m)] = meths[m]
-        # every method of the class that assigns a pump attribute or calls a pump object must be translated
+        # the class has exactly the methods of METHODS (plus the documented untranslated ones of the wrapper): a new
+        # callback (eof_received, pause_writing, ...) or helper is outside the subset until it is listed
         for m in meths.values():
             if (cname, m.name) in nodes: continue
+            if (cname, m.name) not in NOT_TRANSLATED: raise Untranslatable("%s.%s is not in METHODS" % (cname, m.name))
             for n in ast.walk(m):
                 if isinstance(n, ast.Attribute) and isinstance(n.ctx, ast.Store) and ast.unparse(n).startswith(pre) and ast.unparse(n)[len(pre):] in ATTRS:
                     raise Untranslatable("%s.%s assigns %s but is not translated" % (cname, m.name, ast.unparse(n)))
